@@ -20,14 +20,14 @@ def nontrivial(run, m):
 
 def jobs(tier, seed):
     P = dict(p_intjoin=0.3, p_items=0.25, p_retry=0.2)
-    js = batches("conduct", scale(tier, 200, 4000), scale(tier, 20, 100), gen="mix", p_loop=0.4, gseed=seed, P=P,
+    js = batches("conduct", scale(tier, 160, 4000), scale(tier, 10, 100), gen="mix", p_loop=0.4, gseed=seed, P=P,
                  scheds=2, ctl=dict(req=0.07, crash=0.03, max_req=4, reqs=["pausing", "paused", "resuming", "running", "canceling"]),
                  name="random-ctl")
     js += batches("conduct", scale(tier, 120, 2000), scale(tier, 20, 100), gen="mix", p_loop=0.4, gseed=seed + 3, P=P,
                   scheds=2, name="free")
     js += batches("conduct", scale(tier, 100, 2500), scale(tier, 10, 100), gen="mix", p_loop=0.3, gseed=seed + 5,
                   P=dict(P, p_fail_cmd=0.03), scheds=2, p_fail=0.3, exotic=0.5, ctl=dict(rerun=1.0), name="default-rerun")
-    js += batches("ctl_sweep", scale(tier, 40, 600), scale(tier, 4, 20), gen="mix", p_loop=0.3, gseed=seed + 7,
+    js += batches("ctl_sweep", scale(tier, 20, 600), scale(tier, 2, 20), gen="mix", p_loop=0.3, gseed=seed + 7,
                   P=dict(P, nmax=6), modes=["pause"], name="pause-sweep")
     # the repository's own fixture definitions under generated outcomes, schedules and requests
     js += [dict(fn="corpus", parts=4, part=i, runs=scale(tier, 4, 40), gseed=seed, ctl=dict(req=0.08, max_req=3, reqs=["pausing", "paused", "resuming", "running", "canceling"]), name="corpus") for i in range(4)]
